@@ -249,7 +249,7 @@ class Equation:
         for i, term in enumerate(
                 self.program.get_equation().get_term_tensors()):
             factors = [var for var in self.program.get_equation().get_term_vars()[i] if self.__in_update(
-                var)] + [tensor.lower() + "_val" for tensor in term if self.__in_update(tensor)]
+                i, var)] + [tensor.lower() + "_val" for tensor in term if self.__in_update(i, tensor)]
 
             product: Expression = EVar(factors[0])
             for factor in factors[1:]:
@@ -343,12 +343,12 @@ class Equation:
 
         return any(Equation.__frac_coords(arg) for arg in sexpr.args)
 
-    def __in_update(self, factor: str) -> bool:
+    def __in_update(self, term: int, factor: str) -> bool:
         """
-        Returns true if the factor should be included in the update
+        Returns true if the factor should be included in the update of the
+        given term
         """
-        i, j = self.program.get_equation().get_factor_order()[factor]
-        return self.program.get_equation().get_in_update()[i][j]
+        return self.program.get_equation().get_term_in_update(term, factor)
 
     def __iter_fiber(self, rank: str, tensor: Tensor) -> Expression:
         """
